@@ -257,6 +257,19 @@ def run(ctx, model_ok):
             checks.append(("interp-nonstring", ("nonstr", kind, ps), src, "before\n", "103"))
     for s, o in scope_scripts():
         checks.append(("interp-scope", ("scope", s[:20]), s, o, "0"))
+    # `->len()` of a byte-wise slice: the byte count when the slice is text, a reported error when it cuts a character
+    for t in ["é", "aé", "héllo", "€x", "😀", "a€é"]:
+        bs = t.encode("utf-8")
+        for i in range(len(bs)):
+            for j in range(i + 1, len(bs) + 1):
+                try:
+                    bs[i:j].decode("utf-8")
+                    valid = True
+                except UnicodeDecodeError:
+                    valid = False
+                src = f'print("before")\ns := "{t}"\nprint(s[{i}:{j}]->len())\nprint($"<${{s[{i}:{j}]}}>" == ("<" + s[{i}:{j}] + ">"))\n'
+                want = f"before\n{j - i}\ntrue\n" if valid else "before\n"
+                checks.append(("slice-len", ("slice-len", t, valid, j - i), src, want, "0" if valid else "103"))
     for i, (s, o) in enumerate(effect_scripts()):
         checks.append(("interp-effects", ("effects", i), s, o, "103" if "${1}" in s else "0"))
     srcs = [c[2] for c in checks]
